@@ -458,6 +458,9 @@ func (s *sched) enabled() []trans {
 	return ts
 }
 
+// ValTag lets the scenarios give log values to things that cannot implement Tagged (e.g. context.Canceled).
+var ValTag func(v any) (int, bool)
+
 func valInt(v any) int {
 	switch t := v.(type) {
 	case nil:
@@ -466,6 +469,11 @@ func valInt(v any) int {
 		return t
 	case Tagged:
 		return t.VTag()
+	}
+	if ValTag != nil {
+		if n, ok := ValTag(v); ok {
+			return n
+		}
 	}
 	return -1
 }
